@@ -52,6 +52,8 @@ pub fn fills_small_alphabet() -> Alphabet {
     evs.push(alpha::buy(off(b, 5), "X", "10", "20", "2"));
     evs.push(alpha::sell(off(b, 5), "X", "10", "31", "1"));
     evs.push(alpha::sell(off(b, 5), "X", "6", "26", "0"));
+    // a line of another security on the later day too (it can stand between that day's purchase fills and its sale)
+    evs.push(alpha::buy(off(b, 5), "Y", "5", "7", "0"));
     let mut r = Rules::STRICT;
     r.one_buy = false;
     r.one_sell = false;
